@@ -624,3 +624,28 @@ class BatchDLOfDifferencesComplete:
   var_types = {"res": "list[Optional[str]]", "negated": "list[point]"}
   feasibility = False
   props = ["C10"]
+
+
+_ax("g_neg_sub", {"x": "int", "y": "int"}, [],
+    ["ufi('gneg', ca, cb, cm, ufi('gadd', ca, cb, cm, x, ufi('gneg', ca, cb, cm, y))) == "
+     "ufi('gadd', ca, cb, cm, y, ufi('gneg', ca, cb, cm, x))"], "-(x - y) == y - x")
+
+
+def _differences_soundness():
+  """C02, second sentence: whenever BatchDLOfDifferences records 'key - (x, y) = k * G', that relation holds (group view,
+  for on-curve keys): the string is written only on the branch diff == diff2 with diff = Subtract(p, q) and
+  diff2 = Multiply(G, dl); the partner's record 'key2 - p = -dl * G' is the negated relation."""
+  from pyvc.contracts import REGISTRY
+  c = REGISTRY[f"{E}::EcCurve.BatchDLOfDifferences"]
+  G_ = "elt(self, self.g[0], self.g[1])"
+  c.on_assign["res#0"] = [
+      "assert [C02,C10] implies(onp(self, p) and onp(self, q) and diff[0] is not None, "
+      f"gadd(self, eltp(self, p), gneg(self, eltp(self, q))) == gmul(self, dl, {G_}))"]
+  c.on_assign["res#1"] = [
+      "implies(onp(self, p) and onp(self, q), " + ax("g_neg_sub", "eltp(self, p)", "eltp(self, q)") + " and " +
+      ax("gmul_negate", "dl", G_) + ")",
+      "assert [C02,C10] implies(onp(self, p) and onp(self, q) and diff[0] is not None, "
+      f"gadd(self, eltp(self, q), gneg(self, eltp(self, p))) == gmul(self, 0 - dl, {G_}))"]
+
+
+_differences_soundness()
